@@ -309,7 +309,7 @@ def check_scenario(sc, scratch, stats=None):
 
 
 def shard(shard, nshards, tier, seed, scratch):
-    total = 480 if tier == 'quick' else 8000
+    total = 1200 if tier == 'quick' else 12000
     stats = Stats()
     failures = run_hypothesis(st_scenario(), lambda c: check_scenario(c, scratch, stats), max(1, total // nshards), seed, shrink_budget=40 if tier == 'quick' else 400)
     return {'stats': stats.export(), 'failures': failures}
